@@ -1322,7 +1322,7 @@ class DnaT:
             raise Unsupported("anchor-missing: %s" % DS)
         self.names = [f["name"] for f in a["variants"][0]["fields"]]
         if sorted(self.names) != ["len", "storage"]:
-            raise Unsupported("anchor-missing: DnaString fields are %s" % self.names)
+            raise Unsupported("the private fields of DnaString are %s (the lemmas are written against storage, len)" % self.names)
 
     def words(self, src, n, nsym=None):
         """canonical storage of a length-n string: bases < nsym symbolic, padding zero"""
